@@ -38,6 +38,9 @@ var verifDir = func() string {
 type entryCfg struct {
 	Func        string         `json:"func"`
 	Preemptions *int           `json:"preemptions,omitempty"`
+	SchedWidth  int            `json:"sched_width,omitempty"` // max alternatives at a free context switch (0 = all)
+	HashFork    bool           `json:"hash_fork,omitempty"`   // see symgo.Options.HashFork
+	DelayBound  *int           `json:"delay_bound,omitempty"` // delay-bounded scheduling: deviations from oldest-first at free switches
 	MapOrderAll bool           `json:"map_order_all,omitempty"`
 	TimeoutMs   int            `json:"timeout_ms,omitempty"`
 	MaxPaths    int            `json:"max_paths,omitempty"`
@@ -61,6 +64,7 @@ type propCfg struct {
 	Files       []string   `json:"files"` // harness files under /verif/harness
 	Entries     []entryCfg `json:"entries"`
 	More        []morePkg  `json:"more,omitempty"` // further packages with their harness files
+	HashFork    bool       `json:"hash_fork,omitempty"`
 	Tags        []string   `json:"tags,omitempty"`
 	Assumptions []string   `json:"assumptions,omitempty"`
 	BoundsText  string     `json:"bounds_text,omitempty"`
@@ -460,6 +464,11 @@ func (c *checker) confirmEngine(prog *symgo.Program, fn *ssa.Function, e entryCf
 	if e.Preemptions != nil {
 		opt.Preemptions = *e.Preemptions
 	}
+	opt.SchedWidth = e.SchedWidth
+	opt.HashFork = e.HashFork || c.pc.HashFork
+	if e.DelayBound != nil {
+		opt.DelayBound = *e.DelayBound
+	}
 	cfg := symgo.Config{Entry: fn, Opt: opt, Workers: 1, Solver: c.solver, TimeoutMs: 20000, Tier: vec.Tier, Bounds: vec.Bounds,
 		StopOnViolation: true, ConcreteInputs: vec.Inputs, ConcretePrefix: vec.Prefix, ConcreteKinds: vec.Kinds}
 	if cfg.ConcreteInputs == nil {
@@ -500,6 +509,12 @@ func (c *checker) effective0(e entryCfg) entryCfg {
 		}
 		if t.Preemptions == nil {
 			t.Preemptions = e.Preemptions
+		}
+		if t.SchedWidth == 0 {
+			t.SchedWidth = e.SchedWidth
+		}
+		if t.DelayBound == nil {
+			t.DelayBound = e.DelayBound
 		}
 		if !t.MapOrderAll {
 			t.MapOrderAll = e.MapOrderAll
@@ -571,6 +586,11 @@ func (c *checker) run(only string) int {
 		opt.MapOrderAll = e.MapOrderAll
 		if e.Preemptions != nil {
 			opt.Preemptions = *e.Preemptions
+		}
+		opt.SchedWidth = e.SchedWidth
+		opt.HashFork = e.HashFork || c.pc.HashFork
+		if e.DelayBound != nil {
+			opt.DelayBound = *e.DelayBound
 		}
 		timeout := e.TimeoutMs
 		if timeout == 0 {
